@@ -35,7 +35,7 @@ var NotApplicable = []NA{
 	{"C01", "pure codec over inputs (all headers, lengths, byte strings): no transport, fault, schedule or history in its statement; deterministic simulation has nothing to decide (DESIGN.md §5). Header parsing from a segmented transport is exercised incidentally by C04/C05/C16."},
 	{"C02", "XOR masking is a pure function of (payload, key, offset); 'any chunking' is an argument, not an environment (DESIGN.md §5). CipherReader under seeded segmentation is exercised incidentally by C04, client masking by C06/C08."},
 	{"C03", "pure predicates over (header, state) and (code, reason); the simulator uses an independent restatement of these rules as its oracle and does not test them (DESIGN.md §5)."},
-	{"C06", notYet}, {"C08", notYet},
+	{"C08", notYet},
 	{"C09", "decision of the upgrader over all requests of a grammar x callback configurations: a pure function of the request bytes; the simulation only ever feeds it requests written by the library's own dialer (C11) or cuts of them (C16) (DESIGN.md §5)."},
 	{"C10", "decision of the dialer over all responses of a grammar and URL forms: a pure function of response bytes and configuration; only its 'bytes after the head stay readable' clause has a delivery dimension and that is checked inside C11/C16 (DESIGN.md §5)."},
 	{"C11", notYet}, {"C12", notYet}, {"C13", notYet},
@@ -75,6 +75,12 @@ var All = []*Spec{
 		LevelText: "seeded exploration of (valid prefix x offending frame x state x chunking); oracle: everything before frame k delivered exactly as for a valid stream, the call asking for frame k returns ws.ProtocolError or ErrFrameTooLarge, no marker byte of frame k or later is ever delivered.",
 		LevelNote: "trusted: the RFC rule table in /verif/ref (independent of ws.CheckHeader); which rule is named is not checked.",
 		DesignRef: "§4 C05", Technique: "deterministic simulation: seeded invalid-frame injection + reference rule table"},
+	{ID: "C06", Engine: "wire", Level: "exploration", Quick: 24000, Thorough: 2400000,
+		Rule: "each run draws a constructor (NewWriter, NewWriterSize, NewWriterBufferSize, NewWriterBuffer, GetWriter), a buffer size around the 125/126 and 65535/65536 header-reservation thresholds, side, opcode, DisableFlush, extension, and a history of 1-12 calls from {Write, Write(empty), ReadFrom (chunked source, optional trailing error), io.Copy, WriteThrough, FlushFragment, Flush, Grow} with sizes relative to the buffer, or one of the seven WriteMessage helpers; non-trivial = history longer than one call; distinct = trace digests (destination write-call boundaries)",
+		Stub: stubWire, Assume: assumeCommon,
+		LevelText: "seeded exploration of call histories; after every call the bytes received by the destination are decoded by the reference decoder: whole frames at every call boundary, first frame opcode / continuations / only the last final, RSV only from the extension, MASK iff client with payload = accepted bytes, Flush of nothing emits nothing, fits-the-buffer => one frame, DisableFlush => nothing before Flush then one frame, Buffered() = accepted minus sent.",
+		LevelNote: "fault-free destination (write failures are C16's); whether a zero-length write followed by Flush yields an empty message or nothing is left open; ErrNotEmpty from WriteThrough is a legal refusal.",
+		DesignRef: "§4 C06", Technique: "deterministic simulation: seeded call histories vs reference frame decoder on the destination ledger"},
 	{ID: "C07", Engine: "wire", Level: "exploration", Quick: 24000, Thorough: 2400000,
 		Rule: "each run builds 1-3 text/binary messages from a structured UTF-8 cover (boundary runes of every length, overlongs, surrogates, >U+10FFFF, truncated tails, every lead byte x boundary continuation bytes), splits them into fragments at arbitrary bytes (also inside sequences), interleaves pings, and reads them through Reader{CheckUTF8}, ReadMessage, ReadData or the standalone UTF8Reader under seeded segmentation and buffer sizes; non-trivial = invalid text present or a real transport split; distinct = trace digests",
 		Stub: stubWire, Assume: append([]string{"the clause 'all byte strings up to 3 bytes' is sampled through the cover, not enumerated"}, assumeCommon...),
